@@ -80,24 +80,26 @@ type RunResult struct {
 }
 
 type e1 struct {
-	p        *Program
-	w        *World
-	w2       *World // optional second bucket
-	env      Env
-	docs     []map[string]Doc // per collection
-	docs2    map[string]Doc   // second bucket, default collection
-	names    map[string]bool  // xattr names ever used
-	live     []*FeedLog       // one live feed per collection
-	liveIdx  []int
-	live2    *FeedLog
-	live2Idx int
-	maxCas   uint64
-	casHist  map[string][]uint64 // per coll/key: CAS values seen (for "stale")
-	ctx      OpCtx
-	res      *RunResult
-	step     int
-	feedN    int
-	logOn    bool
+	p         *Program
+	w         *World
+	w2        *World // optional second bucket
+	env       Env
+	docs      []map[string]Doc // per collection
+	docs2     map[string]Doc   // second bucket, default collection
+	names     map[string]bool  // xattr names ever used
+	live      []*FeedLog       // one live feed per collection
+	liveIdx   []int
+	live2     *FeedLog
+	live2Idx  int
+	maxCas    uint64              // highest CAS seen on any document (including caller-supplied WithMeta values)
+	maxIssued uint64              // highest CAS handed out by the clock (regular writes)
+	clockBack uint64              // how far the HLC's physical clock has been set back (nanoseconds)
+	casHist   map[string][]uint64 // per coll/key: CAS values seen (for "stale")
+	ctx       OpCtx
+	res       *RunResult
+	step      int
+	feedN     int
+	logOn     bool
 }
 
 func (e *e1) logf(format string, args ...any) {
@@ -211,6 +213,7 @@ func RunE1(t *testing.T, p *Program, withLog bool) *RunResult {
 		e.w2.Cleanup()
 	}
 	Uninstall()
+	rosmar.VerifSetClock(nil)
 	rosmar.MaxDocSize = 20 * 1024 * 1024
 	if bo.Panic != "" && res.Trouble == "" && res.Violation == nil {
 		res.Trouble = "root panic: " + bo.Panic
@@ -225,6 +228,7 @@ func (e *e1) run() {
 	p := e.p
 	start := time.Now()
 	rosmar.VerifResetProcess()
+	rosmar.VerifSetClock(nil)
 	rosmar.MaxDocSize = 20 * 1024 * 1024
 	if p.MaxDoc > 0 {
 		rosmar.MaxDocSize = p.MaxDoc
@@ -319,8 +323,12 @@ func (e *e1) doOp(op *Op) *Violation {
 		return e.doBackfill(op)
 	case "Purge":
 		return e.doPurge(op)
-	case "Reopen":
+	case "Reopen", "Restart":
 		return e.doReopen(op)
+	case "Advance":
+		return e.doAdvance(op)
+	case "Clock":
+		return e.doClock(op)
 	}
 	ds, bucket, docs := e.target(op)
 	d := docs[op.Key]
@@ -353,9 +361,10 @@ func (e *e1) doOp(op *Op) *Violation {
 	if out.Mutated {
 		n := out.Next
 		if n.Cas != 0 && op.Kind != "SetWithMeta" && op.Kind != "DeleteWithMeta" && out.Family != "touch" {
-			if n.Cas <= e.maxCas {
-				return e.violate([]string{"C04"}, "cas.monotonic", "step %d %s: new CAS %d is not above the highest CAS handed out so far (%d)", e.step, op, n.Cas, e.maxCas)
+			if n.Cas <= e.maxIssued {
+				return e.violate([]string{"C04"}, "cas.monotonic", "step %d %s: new CAS %d is not above the highest CAS handed out so far (%d)", e.step, op, n.Cas, e.maxIssued)
 			}
+			e.maxIssued = n.Cas
 		}
 		if n.Cas > e.maxCas {
 			e.maxCas = n.Cas
@@ -374,6 +383,9 @@ func (e *e1) doOp(op *Op) *Violation {
 		// a call that changed nothing may still have consumed a CAS
 		if r.NewCas > e.maxCas {
 			e.maxCas = r.NewCas
+		}
+		if r.NewCas > e.maxIssued {
+			e.maxIssued = r.NewCas
 		}
 	}
 	// live feed events
@@ -744,7 +756,8 @@ func (e *e1) allKeys() []string {
 // doReopen closes the (on-disk) bucket cleanly and opens it again: everything must be as
 // the model says, and the feeds are restarted.
 func (e *e1) doReopen(op *Op) *Violation {
-	if !e.p.OnDisk {
+	restart := op.Kind == "Restart"
+	if restart && !e.p.OnDisk {
 		return nil
 	}
 	for _, f := range e.live {
@@ -753,7 +766,20 @@ func (e *e1) doReopen(op *Op) *Violation {
 	synctest.Wait()
 	e.w.Handles[0].Close(context.Background())
 	synctest.Wait()
-	b, err := rosmar.OpenBucket(e.w.URL, e.w.Name, rosmar.ReOpenExisting)
+	mode := rosmar.OpenMode(rosmar.ReOpenExisting)
+	if !e.p.OnDisk {
+		mode = rosmar.CreateOrOpen // the data of an in-memory bucket outlives its handles
+	}
+	if restart {
+		// a new process: empty registry, a hybrid clock that remembers nothing, and a wall clock
+		// that is EARLIER than before the restart
+		rosmar.VerifResetProcess()
+		e.clockBack += uint64(3600+op.Dur) * 1e9
+		back := e.clockBack
+		rosmar.VerifSetClock(func() uint64 { return uint64(time.Now().UnixNano()) - back })
+		e.probe("restart.clock-earlier")
+	}
+	b, err := rosmar.OpenBucket(e.w.URL, e.w.Name, mode)
 	if err != nil {
 		return e.violate([]string{"C13", "C10"}, "reopen.open", "step %d: reopening the bucket failed: %v", e.step, err)
 	}
@@ -798,4 +824,97 @@ func resForLog(op *Op, r Res) string {
 		r.Err = "failed"
 	}
 	return r.String()
+}
+
+// doClock changes what the hybrid logical clock reads as physical time (C04).
+func (e *e1) doClock(op *Op) *Violation {
+	switch op.CasMode {
+	case "stall":
+		fixed := uint64(time.Now().UnixNano()) - e.clockBack
+		rosmar.VerifSetClock(func() uint64 { return fixed })
+	case "back":
+		e.clockBack += uint64(1+op.Dur) * 1e9
+		back := e.clockBack
+		n := uint64(0)
+		rosmar.VerifSetClock(func() uint64 { n++; return uint64(time.Now().UnixNano()) - back - n*1000 })
+	case "jump":
+		fwd := uint64(1+op.Dur) * 1e9
+		back := e.clockBack
+		rosmar.VerifSetClock(func() uint64 { return uint64(time.Now().UnixNano()) - back + fwd })
+	default:
+		back := e.clockBack
+		rosmar.VerifSetClock(func() uint64 { return uint64(time.Now().UnixNano()) - back })
+	}
+	e.probe("clock." + op.CasMode)
+	e.logf("#%d Clock(%s)", e.step, op.CasMode)
+	return nil
+}
+
+// doAdvance lets simulated time pass with no client activity and judges expiry (C14):
+// a document may be tombstoned only once its deadline has passed, and must be within a few
+// seconds after it, each time with one deletion event on the collection's feed.
+func (e *e1) doAdvance(op *Op) *Violation {
+	time.Sleep(time.Duration(op.Dur) * time.Second)
+	synctest.Wait()
+	now := nowUnix()
+	e.logf("#%d Advance(%ds) -> now=%d", e.step, op.Dur, now)
+	const grace = 5
+	type cev struct {
+		ci int
+		o  ObsEvent
+	}
+	var all []cev
+	for ci, f := range e.live {
+		evs := f.Snapshot()
+		for _, o := range evs[e.liveIdx[ci]:] {
+			all = append(all, cev{ci, o})
+		}
+		e.liveIdx[ci] = len(evs)
+	}
+	sort.SliceStable(all, func(i, j int) bool { return all[i].o.Cas < all[j].o.Cas })
+	for _, ce := range all {
+		ci, o := ce.ci, ce.o
+		docs := e.docs[ci]
+		d, ok := docs[o.Key]
+		if !ok || d.Exp == 0 || o.Opcode != sgbucket.FeedOpDeletion {
+			return e.violate([]string{"C14", "C08"}, "expiry.spurious", "step %d: while time passed with no client activity the feed of collection %d received %s, but that key has no expiry in force (model: %s)", e.step, ci, o, d)
+		}
+		if d.Exp > now {
+			return e.violate([]string{"C14"}, "expiry.early", "step %d: %q was expired at %d, before its expiry time %d", e.step, o.Key, now, d.Exp)
+		}
+		n := tombstoneOf(d)
+		n.Rev = d.Rev + 1
+		n.Cas = o.Cas
+		if o.Cas <= e.maxIssued {
+			return e.violate([]string{"C04", "C14"}, "cas.monotonic", "step %d: the expiry of %q was stamped CAS %d, not above the highest CAS handed out so far (%d)", e.step, o.Key, o.Cas, e.maxIssued)
+		}
+		e.maxIssued = o.Cas
+		if o.Cas > e.maxCas {
+			e.maxCas = o.Cas
+		}
+		if what, tags := compareEvent(o, n.event(o.Key), "C08"); what != "" {
+			return e.violate(append(tags, "C14"), "expiry.event."+strings.SplitN(what, " ", 2)[0], "step %d: the deletion event of the expired %q (%s) is wrong: %s", e.step, o.Key, o, what)
+		}
+		docs[o.Key] = n
+		e.casHist[e.key(ci, o.Key)] = append(e.casHist[e.key(ci, o.Key)], n.Cas)
+		e.probe("expiry.fired")
+		e.res.Stats.NonTrivial = true
+	}
+	for ci, docs := range e.docs {
+		for _, k := range keysOf(docs, "") {
+			d := docs[k]
+			if d.HasBody && d.Exp != 0 && !d.ExpAny && d.Exp+grace <= now {
+				return e.violate([]string{"C14"}, "expiry.late", "step %d: %q (collection %d) has expiry %d but is still live at %d, %d s after its deadline, and no deletion event was delivered", e.step, k, ci, d.Exp, now, now-d.Exp)
+			}
+		}
+	}
+	// read everything back: live documents still readable with their expiry, expired ones gone
+	for ci, docs := range e.docs {
+		for _, k := range e.allKeys() {
+			if why, tags, what := e.readKey(e.w.Colls[0][ci], e.w.Handles[0], docs, ci, k); why != "" {
+				return e.violate(append(tags, "C14"), "expiry.readback."+what, "step %d after %d s passed: %s", e.step, op.Dur, why)
+			}
+		}
+	}
+	return nil
 }
